@@ -70,6 +70,8 @@ def main(tier, seed):
                     continue
                 if nar.result['wrap'] or it.result['wrap']:
                     continue
+                if 'literal_exceeds_word' in (nar.meta.get('features') or ()) or 'literal_exceeds_word' in (it.meta.get('features') or ()):
+                    continue          # a (folded) constant of the text does not fit the narrower word
                 if nar.result['mobs'] != it.result['mobs']:
                     res.append(common.Violation(PROP, 'no value wrapped at W=%d, yet the observable differs at W=%d' % (nar.w, it.w),
                                                 classifier={'kind': 'word_not_monotone', 'family': it.meta['family'], 'w': it.w},
